@@ -1,0 +1,79 @@
+//! Resolver and connector door of the direct TCP forwarder: with a plan installed for a
+//! [`core::Core`], the resolver's answers can be replaced and every outbound TCP connection
+//! attempt of `TcpForwarder::connect` lands in the plan instead of the network.
+
+use super::pipes::{SinkIn, SourceIn};
+use super::session::{ConnErrView, PipeHalves};
+use crate::{core, pipe, tunnel};
+use std::collections::HashMap;
+use std::net::SocketAddr;
+use std::sync::{Arc, Mutex};
+
+pub trait NetPlan: Send + Sync {
+    /// The answer the selection loop should see for `host:port`; `None` keeps the real one
+    fn resolve(&self, host: &str, port: u16, real: &[SocketAddr]) -> Option<Vec<SocketAddr>>;
+    /// An outbound connection attempt to `peer`
+    fn connect(&self, peer: SocketAddr) -> Result<PipeHalves, ConnErrView>;
+}
+
+static PLANS: Mutex<Option<HashMap<usize, Arc<dyn NetPlan>>>> = Mutex::new(None);
+
+fn key(context: &Arc<core::Context>) -> usize {
+    Arc::as_ptr(context) as usize
+}
+
+/// Keeps a plan installed for one [`core::Core`]; removes it when dropped.
+pub struct NetPlanGuard(usize);
+
+impl Drop for NetPlanGuard {
+    fn drop(&mut self) {
+        if let Some(m) = PLANS.lock().unwrap().as_mut() {
+            m.remove(&self.0);
+        }
+    }
+}
+
+pub(crate) fn install(context: &Arc<core::Context>, plan: Arc<dyn NetPlan>) -> NetPlanGuard {
+    let k = key(context);
+    PLANS
+        .lock()
+        .unwrap()
+        .get_or_insert_with(HashMap::new)
+        .insert(k, plan);
+    NetPlanGuard(k)
+}
+
+fn plan_of(context: &Arc<core::Context>) -> Option<Arc<dyn NetPlan>> {
+    PLANS
+        .lock()
+        .unwrap()
+        .as_ref()
+        .and_then(|m| m.get(&key(context)).cloned())
+}
+
+pub(crate) fn override_resolved(
+    context: &Arc<core::Context>,
+    host: &str,
+    port: u16,
+    real: impl Iterator<Item = SocketAddr>,
+) -> std::vec::IntoIter<SocketAddr> {
+    let real: Vec<SocketAddr> = real.collect();
+    match plan_of(context).and_then(|p| p.resolve(host, port, &real)) {
+        Some(x) => x.into_iter(),
+        None => real.into_iter(),
+    }
+}
+
+pub(crate) fn intercept_connect(
+    context: &Arc<core::Context>,
+    peer: SocketAddr,
+) -> Option<Result<(Box<dyn pipe::Source>, Box<dyn pipe::Sink>), tunnel::ConnectionError>> {
+    let plan = plan_of(context)?;
+    Some(match plan.connect(peer) {
+        Ok((rx, tx)) => Ok((
+            Box::new(SourceIn(rx)) as Box<dyn pipe::Source>,
+            Box::new(SinkIn(tx)) as Box<dyn pipe::Sink>,
+        )),
+        Err(e) => Err(e.into()),
+    })
+}
